@@ -177,6 +177,35 @@ def run_case(ctx, g, rng):
     probe.note_key(f"ctor:{kinds}:both{int(both)}:n{n}", nontrivial)
     if len(outs) > 1:
         violation(["C04"], "construct", "outcome-depends-on-input-order", records=[spec.rec_dict(r) for r in recs], outcomes=sorted(outs))
+    # Record objects whose synonym collections arrive as something other than a list of plain strings (pydantic accepts
+    # any iterable for list[str]): the record must hold exactly the synonyms it was given - a record that silently
+    # loses them hides the clash they would have caused - and a synonym equal to the canonical value must be refused
+    # whatever kind of string carries it
+    if g % 4 == 0:
+        import rdflib
+
+        for r in recs[:3]:
+            shape = rng.choice(["generator", "iterator", "tuple", "str-subclass"])
+            conv_ = {"generator": lambda xs: (x for x in xs), "iterator": lambda xs: iter(list(xs)), "tuple": tuple,
+                     "str-subclass": lambda xs: [gen.Str(x) for x in xs]}[shape]
+            ro = call(api.Record, prefix=r.prefix, uri_prefix=r.uri_prefix, prefix_synonyms=conv_(r.psyn), uri_prefix_synonyms=conv_(r.usyn))
+            probe.evaluated("record-holds-what-it-was-given")
+            if ro[0] != "ret" or list(ro[1].prefix_synonyms) != list(r.psyn) or list(ro[1].uri_prefix_synonyms) != list(r.usyn):
+                violation(["C04"], "record-holds-what-it-was-given", "record-lost-synonyms-given-as-" + shape, given=spec.rec_dict(r),
+                          observed=ro[1] if ro[0] == "raise" else spec.rec_dict(spec.rec_of(ro[1])))
+            for kind, wrap in (("str-subclass", gen.Str), ("URIRef", rdflib.URIRef)):
+                for side in ("curie", "uri"):
+                    kw_ = dict(prefix=r.prefix, uri_prefix=r.uri_prefix)
+                    if side == "curie":
+                        kw_["prefix_synonyms"] = [*r.psyn, wrap(r.prefix)]
+                    else:
+                        kw_["uri_prefix_synonyms"] = [*r.usyn, wrap(r.uri_prefix)]
+                    so = call(api.Record, **kw_)
+                    probe.evaluated("record-holds-what-it-was-given")
+                    if not (so[0] == "raise" and isinstance(so[1], ValueError)):
+                        violation(["C04"], "record-holds-what-it-was-given", f"record-accepts-its-own-canonical-value-as-synonym-carried-by-{kind}",
+                                  side=side, given=spec.rec_dict(r), observed=spec.rec_dict(spec.rec_of(so[1])))
+        S.counters["wl:records-built-from-other-collections"] += 1
     # the same collection through the loaders, as far as the format can express it
     call(api.Converter.from_extended_prefix_map, [spec.rec_dict(r) for r in recs])
     call(api.Converter.from_extended_prefix_map, [gen.mk_record(api, r) for r in recs])
